@@ -17,4 +17,15 @@ PROPS = {
             "the index attribute is read with strconv.Atoi and its error ignored, exactly as the code does; idx in the theorem is that reading",
         ],
     },
+    "C20": {
+        "modules": ["SamlModel.Props.C20"],
+        "translated": [],
+        "trusted_base": COMMON_TRUST + [
+            "Model.Checker is a hand translation of checker.go: tied by normalised-source fingerprints (theorem C20_source_current, regenerated facts) and by the exhaustive chk correspondence",
+            "closure invocations are observed through instrumented closures; reads of closures are part of the compared trace",
+        ],
+        "assumptions": [
+            "client closures are deterministic and do not panic (a panicking closure aborts the chain in Go and in the model alike; not modelled)",
+        ],
+    },
 }
